@@ -141,8 +141,10 @@ impl Model {
     }
 }
 
+/// a scaled controller / velocity / bend reading: within one ulp of the quotient, or within 2^-24 (half an ulp of
+/// full scale) in absolute terms, so that fixed-point and reciprocal-multiply implementations are not flagged
 fn near(a: f32, ideal: f64) -> bool {
-    (a as f64 - ideal).abs() <= ulp32(ideal as f32) as f64
+    (a as f64 - ideal).abs() <= (ulp32(ideal as f32) as f64).max((2.0f64).powi(-24))
 }
 
 /// compare the public outputs of the real receiver with the model
@@ -818,7 +820,9 @@ fn run_stream(ch: u8, stream: &[u8], lc: &mut LocalCounts) {
 fn replay_bytes(ch: u8, ops: &[String]) -> Vec<String> {
     let mut t = Twin::new(ch);
     let mut lines = Vec::new();
-    for (i, o) in ops.iter().enumerate() {
+    let expanded: Vec<String> = expand_ops(ops).into_iter().flat_map(|(o, n)| std::iter::repeat(o).take(n as usize)).collect();
+    let total = expanded.len();
+    for (i, o) in expanded.iter().enumerate() {
         let v = o.strip_prefix("byte:").unwrap_or("0");
         if v == "poll" {
             let d = t.poll_both();
@@ -827,13 +831,21 @@ fn replay_bytes(ch: u8, ops: &[String]) -> Vec<String> {
         }
         let b: u8 = v.parse().unwrap();
         let r = std::panic::catch_unwind(std::panic::AssertUnwindSafe(|| t.step(b)));
+        let quiet = total > 64 && i > 8 && i + 8 < total && matches!(r, Ok(None));
+        if quiet {
+            continue;
+        }
         let mut l = format!("#{:<3} byte {:#04x} -> {}", i + 1, b, obs_str(&t.a));
+        let stop = r.is_err();
         match r {
             Err(e) => l.push_str(&format!("  PANIC: {}", panic_msg(&e))),
             Ok(Some(d)) => l.push_str(&format!("\n        !! C06 [framing] {}", d)),
             Ok(None) => {}
         }
         lines.push(l);
+        if stop {
+            break;
+        }
     }
     lines
 }
